@@ -8,17 +8,21 @@
    `if options.save_sauce { buf.write_sauce_info(T, &mut   with_sauce   (T = Bin for BIN, TundraDraw for Tundra, XBin for XBin;
       result)?; }` at the end of to_bytes                               src/formats/{bin,tundra,xbinary}.rs)
    Bin / TundraDraw / XBin ::to_bytes                      bin_to_bytes / tnd_to_bytes / xb_to_bytes
+   Artworx / IceDraw ::to_bytes                            adf_to_bytes (record of type Ansi) / idf_to_bytes (record of type Bin:
+                                                           the writer refuses widths with w / 2 > 255)
    Buffer::from_bytes: SauceData::extract,                 from_bytes_with (Sauce.split, then the loader on the content with the
      `len -= sauce_header_len`, `&bytes[..len]`,                            fields of the record it reads: sauce_view, the same
      fmt.load_buffer(.., sauce_data)                                        projection as C02Dispatch.view)
-   (src/buffers.rs)                                        bin_from_bytes / tnd_from_bytes / xb_from_bytes
+   (src/buffers.rs)                                        bin_from_bytes / tnd_from_bytes / xb_from_bytes / adf_from_bytes /
+                                                           idf_from_bytes (IceDraw::load_buffer calls set_sauce(.., false): the
+                                                           record changes nothing the picture shows; load_idf takes none)
    The extension dispatch of from_bytes is C02's (Gen/C02Ext.v, ext_table_ok); here the format is given.
 
    A SAUCE error class e is `Err (200 + e)`, a panic site s of the SAUCE code `Panic (200 + s)`.
    `date` is the 8 bytes chrono formats today's date to, `dp` chrono's parser (C11's oracles); `name` the name of font 0. *)
 From Coq Require Import NArith ZArith Bool List.
 From IE Require Import Lib.Tbl Lib.C05Lib Gen.Codepage Gen.Formats Model.Attr Model.C05Buf Model.C05Bin Model.C05XBin
-  Model.C05Tundra Model.C02Loaders Model.C05XBinC.
+  Model.C05Idf Model.C05Tundra Model.C02Loaders Model.C05XBinC.
 From IE Require Model.Sauce.
 Import ListNotations.
 
@@ -50,3 +54,10 @@ Definition from_bytes_with (dp : list N -> option Sauce.ymd) (loader : list N ->
 Definition bin_from_bytes dp := from_bytes_with dp load_bin.
 Definition tnd_from_bytes dp := from_bytes_with dp load_tnd2.
 Definition xb_from_bytes dp := from_bytes_with dp load_xb2.
+
+Definition adf_to_bytes (save_sauce : bool) (p : pic) name ws date : res (list N) :=
+  let* d := save_adf p in with_sauce save_sauce Sauce.FtAnsi p name ws date d.
+Definition idf_to_bytes (compress save_sauce : bool) (p : pic) name ws date : res (list N) :=
+  let* d := save_idf compress p in with_sauce save_sauce Sauce.FtBin p name ws date d.
+Definition adf_from_bytes dp := from_bytes_with dp load_adf.
+Definition idf_from_bytes dp := from_bytes_with dp (fun content _ => load_idf content).
